@@ -9,7 +9,7 @@
    [mod_wf E m]: a groups modifier names groups of the assets (in Go they are taken from them). *)
 From Coq Require Import List NArith Bool.
 From Verif Require Import model.Contact model.Modifiers proofs.ModifiersBase proofs.GroupsProofs
-  proofs.ModifiersProofs proofs.ModifiersSprint.
+  proofs.ModifiersProofs proofs.ModifiersIdem proofs.ModifiersSprint.
 Import ListNotations.
 Open Scope N_scope.
 
@@ -33,6 +33,38 @@ Theorem c03_modified_iff_changed : forall E fresh m c c' evs modified,
 Proof. exact modified_iff_changed. Qed.
 Print Assumptions c03_modified_iff_changed.
 
+(* the premise on MaxFieldChars cannot be dropped *)
+Theorem c03_zero_limit_refuted :
+  exists E fresh m c c' evs,
+    wf_contact E c /\ mod_wf E m /\ max_field_chars E = 0
+    /\ apply E fresh m c = (c', evs, true) /\ same_contact c c'.
+Proof. exact zero_limit_refuted. Qed.
+Print Assumptions c03_zero_limit_refuted.
+
+(* applying the same modifier a second time (to the contact the first application left, group re-evaluation
+   included) reports nothing, emits no change event and leaves the contact as it is.  [mod_env_ok] is what the
+   proof needs from nyaruka/gocommon/urns, outside goflow: Normalize is stable up to Identity on the URNs an
+   appending modifier makes valid; SetChannel is idempotent and keeps the scheme on the contact's URNs.  It is a
+   computable test and is evaluated on every case of the correspondence run. *)
+Theorem c03_idempotent : forall E fresh fresh' m c c1 evs1 b1 c2 evs2 b2,
+  wf_contact E c -> mod_wf E m -> max_field_chars E <> 0 -> mod_env_ok E m c = true ->
+  apply E fresh m c = (c1, evs1, b1) ->
+  apply E fresh' m c1 = (c2, evs2, b2) ->
+  b2 = false /\ has_change_event evs2 = false /\ erase c2 = erase c1.
+Proof. exact idempotent. Qed.
+Print Assumptions c03_idempotent.
+
+(* ... with the same environment both times.  If the clock moves in between, a date without time of day parses
+   to another instant and the second application reports again (finding F3e, listed in KNOWN_FINDINGS.txt): the
+   second environment differs from the first only in parse_dt *)
+Theorem c03_idempotent_moving_clock_refuted :
+  exists E p2 fresh m c c1 evs1 b1 c2 evs2,
+    wf_contact E c /\ mod_wf E m /\ max_field_chars E <> 0 /\ mod_env_ok E m c = true
+    /\ apply E fresh m c = (c1, evs1, b1)
+    /\ apply (with_parse_dt E p2) (fresh + 1) m c1 = (c2, evs2, true).
+Proof. exact idempotent_moving_clock_refuted. Qed.
+Print Assumptions c03_idempotent_moving_clock_refuted.
+
 (* sprint clause on the step model: for every kind of engine call (start without / with a received message,
    resume with / without refreshed contact and message) and every sequence of contact-changing actions, the
    sprint's events replay to the session contact afterwards.  Named _partial because which steps a sprint
@@ -42,7 +74,7 @@ Theorem c03_replay_sprint_partial : forall E k acts c c' evs,
   wf_contact E c -> kind_wf E k -> Forall (fun fm => mod_wf E (snd fm)) acts ->
   run_sprint E k acts c = (c', evs) ->
   same_contact (replay evs c) c'.
-Proof. intros E k acts c c' evs H1 H2 H3 H4. exact (proj1 (after_sprint E k acts c c' evs H1 H2 H3 H4)). Qed.
+Proof. exact replay_sprint. Qed.
 Print Assumptions c03_replay_sprint_partial.
 
 (* any interleaving of the four kinds of contact writes replays, not only the engine's *)
